@@ -152,24 +152,27 @@ Fixpoint ok_item (cx : context) (ps : pstate) (i : item) (nxt : option N) {struc
          end
   end.
 
-Fixpoint ok_items (cx : context) (ps : pstate) (l : list item) (fh : option N) : bool :=
-  match l with
-  | [] => true
-  | j :: r => ok_item cx ps j (hd_error (unparse_items r ++ ostr fh)) && ok_items cx ps r fh
-  end.
+(** (same shape as the local fixpoints of [ok_item]) *)
+Definition ok_items (cx : context) : pstate -> list item -> option N -> bool :=
+  fix oks (bps : pstate) (l : list item) (fh : option N) {struct l} : bool :=
+    match l with
+    | [] => true
+    | j :: r => ok_item cx bps j (hd_error (flat_map unparse_item r ++ ostr fh)) && oks bps r fh
+    end.
 
-Fixpoint ok_args (cx : context) (ps : pstate) (al : list item) (specs : list argspec) : bool :=
-  match al, specs with
-  | [], [] => true
-  | a :: r, spc :: specs' =>
-      match a_kind spc with AKExpr _ => true | _ => false end
-      && match a with
-         | Grp [] _ _ => ok_item cx (apply_adelta ps (a_delta spc)) a None
-         | _ => false
-         end
-      && ok_args cx ps r specs'
-  | _, _ => false
-  end.
+Definition ok_args (cx : context) (ps : pstate) : list item -> list argspec -> bool :=
+  fix oka (al : list item) (specs : list argspec) {struct al} : bool :=
+    match al, specs with
+    | [], [] => true
+    | a :: r, spc :: specs' =>
+        match a_kind spc with AKExpr _ => true | _ => false end
+        && match a with
+           | Grp [] _ _ => ok_item cx (apply_adelta ps (a_delta spc)) a None
+           | _ => false
+           end
+        && oka r specs'
+    | _, _ => false
+    end.
 
 (** a document written at top level, in the walker's initial state *)
 Definition ok_doc_in (cx : context) (ps : pstate) (d : doc) : bool :=
@@ -255,19 +258,29 @@ Definition absorb_item (cx : context) (ps : pstate) (p : nat) (st : collstate) (
   | _ => push_node (pre_flush ps st (item_ws j) p) (node_of cx ps (p + length (item_ws j)) j)
   end.
 
-Fixpoint absorb (cx : context) (ps : pstate) (p : nat) (st : collstate) (l : list item) : collstate * nat :=
-  match l with
-  | [] => (st, p)
-  | j :: r => absorb cx ps (p + ilen j) (absorb_item cx ps p st j) r
-  end.
+(** (the fixpoints below have exactly the shape of the local ones of [node_of]) *)
+Definition absorb (cx : context) : pstate -> nat -> collstate -> list item -> collstate * nat :=
+  fix go (bps : pstate) (p : nat) (st : collstate) (l : list item) {struct l} : collstate * nat :=
+    match l with
+    | [] => (st, p)
+    | j :: r => go bps (p + ilen j) (absorb_item cx bps p st j) r
+    end.
 
-Fixpoint arg_nodes (cx : context) (ps : pstate) (p : nat) (al : list item) (specs : list argspec)
-  : list (option node) * nat :=
-  match al, specs with
-  | a :: r, spc :: specs' =>
-      let rr := arg_nodes cx ps (p + ilen a) r specs' in
-      (node_of cx (apply_adelta ps (a_delta spc)) p a :: fst rr, snd rr)
-  | _, _ => ([], p)
+Definition arg_nodes (cx : context) (ps : pstate) : nat -> list item -> list argspec -> list (option node) * nat :=
+  fix goa (p : nat) (al : list item) (specs : list argspec) {struct al} : list (option node) * nat :=
+    match al, specs with
+    | a :: r, spc :: specs' =>
+        let rr := goa (p + ilen a) r specs' in
+        (node_of cx (apply_adelta ps (a_delta spc)) p a :: fst rr, snd rr)
+    | _, _ => ([], p)
+    end.
+
+(** the collector meets the end of input after trailing whitespace [tr] at [p]
+    (a non-empty final whitespace run arrives as a zero-width character token) *)
+Definition eos_state (ps : pstate) (st : collstate) (tr : str) (p : nat) : collstate :=
+  match tr with
+  | [] => flush ps st
+  | _ => flush ps (push_pending st tr p)
   end.
 
 (** [tree_of cx ps pos d]: the items of the node list that the document [d],
@@ -275,7 +288,7 @@ Fixpoint arg_nodes (cx : context) (ps : pstate) (p : nat) (al : list item) (spec
     where it ends *)
 Definition tree_of (cx : context) (ps : pstate) (pos : nat) (d : doc) : list (option node) * nat :=
   let r := absorb cx ps pos cs_empty (d_items d) in
-  (cs_acc (close_state ps (fst r) (d_trail d) (snd r)), snd r + length (d_trail d)).
+  (cs_acc (eos_state ps (fst r) (d_trail d) (snd r)), snd r + length (d_trail d)).
 
 (** what [parse_content(LatexGeneralNodesParser())] returns for it *)
 Definition doc_result (cx : context) (d : doc) : res out :=
